@@ -513,10 +513,11 @@ def classify_mixed(basis):
 
 
 def check_mixed(part, basis):
-    """Slow observers on a basis mixing short and long patterns, plus the independent verdict:
+    """Slow observers on a basis mixing short and long patterns against the independent verdict:
     special simples infinite => not reported; special simples finite and no pin word of length
-    PIN_HORIZON avoids the basis (the pin permutations die out) => reported."""
-    verdict = check_slow(part, basis, True, False)
+    PIN_HORIZON avoids the basis (the pin permutations die out) => reported; where the reference is
+    inconclusive (pin words alive at the horizon) the verdict is compared with the class test."""
+    verdict = check_slow(part, basis, False, False)
     whole, short, long_ = classify_mixed(basis)
     case = {"basis": basis, "kind": "mixed"}
     if verdict is None:
@@ -528,15 +529,20 @@ def check_mixed(part, basis):
         part.bump("mixed_ref_infinite_by_special_simples")
         if verdict is not False:
             part.violation("fms-mixed", case, detail)
-    else:
-        e = G16.pin_extinction_for_basis(basis, PIN_HORIZON)
-        if e < PIN_HORIZON:
-            part.bump("mixed_ref_finite")
-            if verdict is not True:
-                detail["pin_words_extinct_at_length"] = e
-                part.violation("fms-mixed", case, detail)
-        else:
-            part.bump("mixed_ref_inconclusive_pin_alive_at_horizon")
+        return verdict
+    e = G16.pin_extinction_for_basis(basis, PIN_HORIZON)
+    if e < PIN_HORIZON:
+        part.bump("mixed_ref_finite")
+        if verdict is not True:
+            detail["pin_words_extinct_at_length"] = e
+            part.violation("fms-mixed", case, detail)
+        return verdict
+    part.bump("mixed_ref_inconclusive_pin_alive_at_horizon")
+    Perm, _, _, _, PinWords = _lib()
+    d = _call(lambda: PinWords.has_finite_simples([Perm(p) for p in basis]))
+    if d[0] == "exc" or d[1] != verdict:
+        part.violation("fms-classtest", case, {"strategy_reported": verdict,
+                                               "has_finite_simples": d})
     return verdict
 
 
@@ -773,7 +779,7 @@ def run(ctx, only=None):
     build_pools(quick)
     if want("small"):
         e0 = ctx.evals
-        nvar = 3 if quick else 4
+        nvar = 2 if quick else 4
         res = ctx.pmap(shard_fast, _shards("small", 48, nvar, True))
         ctx.bounds["small"] = ("all %d sets of <=3 patterns of length 1..4; 9 fast strategies x 2 calls + 1 call after the next basis, "
                                "class test on 8 images, find_strategies(.,False) in %d orders/containers"
